@@ -183,3 +183,19 @@ def run_c05_tree(desc, seed):
             add("C05:tree:ret_s", f"tree {parent} {kind} {style}: singular values of the first bond {got} vs dense {ref}")
     return {"nontrivial": truncated, "counters": {"compressions": ncomp}, "outcome": f"tree:{'viol' if viol else 'ok'}",
             "viol": list(viol.values()), "sample": {"desc": desc, "edge_ranks": {str(k): int(np.sum(v > 1e-12 * norm)) for k, v in spectra.items()}}}
+
+
+def clone_ttns(t):
+    """harness-side copy of a TTNS (never the library's copy()): node tensors and labels are copied, the basis tree is shared"""
+    from renormalizer.tn import TTNS, TreeNodeTensor
+    nodes = [TreeNodeTensor(np.array(n.tensor, copy=True), np.array(n.qn, copy=True)) for n in t.node_list]
+    idx = {id(n): i for i, n in enumerate(t.node_list)}
+    for n, new in zip(t.node_list, nodes):
+        for ch in n.children:
+            new.add_child(nodes[idx[id(ch)]])
+    out = TTNS(t.basis, root=nodes[0])
+    out.coeff = t.coeff
+    out.compress_config = t.compress_config.copy()
+    out.evolve_config = t.evolve_config.copy()
+    out.optimize_config = t.optimize_config.copy()
+    return out
